@@ -445,6 +445,11 @@ CATALOGUE = [
     ("A(i) = B(i) * C(i)", {"A": "s", "B": "s", "C": "d"}),
     ("A(i) = 2 * B(i)", {"A": "s", "B": "s"}),
     ("A(i) = B(i) + 1", {"A": "d", "B": "s"}),
+    ("A(i) = 2.0 * B(i)", {"A": "s", "B": "s"}),
+    ("A(i) = B(i) * 3 + C(i)", {"A": "s", "B": "s", "C": "s"}),
+    ("A(i,j) = B(i,j) * 0.5 - 1", {"A": "dd", "B": "ds"}),
+    ("A(i) = B(i) + 1.0", {"A": "d", "B": "s"}),
+    ("A(i) = 0 * B(i) + C(i)", {"A": "s", "B": "s", "C": "s"}),
     ("A(i) = B(i) * B(i)", {"A": "s", "B": "s"}),
     ("A(i,j) = B(i,j) * B(j,i)", {"A": "ds", "B": "ds"}),
     ("A(i,j) = B(i) * C(j)", {"A": "ds", "B": "s", "C": "s"}),
